@@ -126,12 +126,46 @@ CLAIMED = {
 }
 NOT_YET = 'check not built yet in this round (work in progress; see DESIGN.md section 7 for the planned model and theorems)'
 
+# later additions, appended to (technique, level text, level note)
+APPEND = {
+ 'C03': ('; the GTI filter is regenerated from the source (imperative translator) and proved equal to the model',
+         ' gen_filter_exact / gen_filter_sublist restate the filter theorems on the definition regenerated from xGTIList.filter_event_times; GTI lists out of chronological order, nested and '
+         'overlapping, late-starting and early-ending lists in the seed-list data flow; kept share against the light-curve integral over the intervals.', ''),
+ 'C04': ('; apply_dead_time (loop) and _finalize (orchestration skeleton) are regenerated from the source and proved equal to / composed into the model',
+         ' T-tie: gen_apply_dead_time_eq_model, gen_dead_time_spaced (imperative translator), gen_finalize_eq_model / gen_finalize_rows (the order, guards and arguments of the steps of _finalize, '
+         'regenerated by translator/skeltrans.py, composed with the models of the steps into the model of the whole); ROI models sharing component objects (every SRC_ID in the ROITABLE).',
+         ' The synthetic-file writer hands write_fits a real xROIModel and response set.'),
+ 'C05': ('; fill_livetime (array code) and _finalize (orchestration) are regenerated from the source and proved equal to the model',
+         ' T-tie: gen_fill_livetime_eq_model, gen_livetime_eq_spec (imperative translator) and the _finalize skeleton (C04); GTI gaps shorter than the dead time down to back-to-back intervals outside '
+         'the listed finding; the column written by write_fits → _finalize → fill_livetime against the statement.', ''),
+ 'C09': ('; the time and phase masks are regenerated from the source (translator/masks.py) and proved equal to the model',
+         ' Direct selection with a boolean array (--mask): direct_mask_spec, direct_mask_alone, direct_mask_ignored_with_time; the array file is shared by the selections of a run and must stay as written.', ''),
+ 'C10': ('; _time_header_keywords, time_selected, phase_selected and average_deadtime_per_event are regenerated from the source (imperative translator over RealLike: optional values, '
+         'dictionary with literal keys, unbound names as failure) and proved equal to the model',
+         ' T-tie: gen_time_header_keywords_eq_model (32 combinations of present / missing bounds × algorithm), gen_time_kw_spec; an observation straddling MET 0 with bounds exactly 0.0.', ''),
+ 'C11': ('; the real xpobssim() application is run with only the orbit propagator stubbed',
+         ' Application histories: a run from scratch, the same run resumed with the DU 1 file in place (--overwrite False), the same run again in the process, on a configuration with an '
+         'instrumental background.', ''),
+ 'C17': ('; _dt, nu, nudot, met_to_phase and fold are regenerated from the source with their mutual calls and proved equal to the model',
+         ' T-tie: gen_fold_eq_model, gen_fold_is_fract, gen_fold_range, gen_rvs_fold_roundtrip, gen_met_to_phase_eq_model; coarse (ten-bin) pulse profiles.', ''),
+ 'C18': ('; _bin_gti, the xGTIList methods and the observation timeline (shrink, isgti, isocti, _bisect_odd, _calculate_epochs, filter_epochs, gti_list, octi_list) are regenerated from the source '
+         '(imperative translator) and proved equal to the models',
+         ' T-tie: gen_bin_gti_eq_overlap, gen_filter_exact, gen_complement_tiles, gen_gti_list_spec, gen_octi_list_spec, gen_gti_list_duration, gen_calculate_epochs_eq_model (even ticks), '
+         'gen_bisect_odd_eq_model (sorted marks); the trajectory layer on a stub trajectory incl. windows without any transition; threshold-directed queries.',
+         ' The orbit propagation (SGP4, JPL ephemeris) is outside the model: the SAA / occultation status functions are parameters.'),
+ 'C20': ('; harmonic_addition (the double loop) is regenerated from the source and proved equal to the model',
+         ' T-tie: gen_harmonic_addition_eq_model, gen_harmonic_addition_is_stokes_sum, gen_harmonic_perm_invariant; power-law ranges starting at zero energy (oracle only).', ''),
+}
+
+
 def main():
     checks, na = [], []
     for p in PROPS:
         pid = p['id']
         if pid in CLAIMED:
             cat, tech, text, note = CLAIMED[pid]
+            if pid in APPEND:
+                tech, text, note = tech + APPEND[pid][0], text + APPEND[pid][1], note + APPEND[pid][2]
             checks.append(dict(property_id=pid, quick_cmd='./check %s --tier quick' % pid, thorough_cmd='./check %s --tier thorough' % pid,
                                evidence_file='evidence/%s.json' % pid, replay_cmd_template='./check replay {path}', engine='lean4+correspondence',
                                level_claimed=dict(category=cat, text=text, design_ref='DESIGN.md section 7, %s' % pid), level_note=note, technique=tech))
